@@ -39,7 +39,7 @@ func init() {
 			for i := range c03Inits() {
 				u = append(u, "init#"+strconv.Itoa(i))
 			}
-			return append(u, "entry-length-residues#0", "entry-length-residues#1", "certificate-kinds#0", "certificate-kinds#1", "huge")
+			return append(u, "entry-length-residues#0", "entry-length-residues#1", "certificate-kinds#0", "certificate-kinds#1", "huge", "entry-bytes")
 		},
 		Run: c03Run,
 		Bound: func(tier string) map[string]any {
@@ -243,9 +243,68 @@ func c03Variety(c *hx.Ctx, shard int) {
 // c03CertSweep signs with items[l], then items[l%n+1] (items[0] is unused), with and without
 // re-parsing in between, and checks the well-formedness and verification clauses after each step.
 func c03CertSweep(c *hx.Ctx, shard int, items []c03Signer, label string) {
+	c03CertSweepOn(c, pegen.Build(peBaseLayouts()[shard*2]), shard, items, label)
+}
+
+// c03EntryBytes: histories whose outcome depends on the BYTES of an earlier table entry, which no
+// size or layout alphabet reaches: (a) for every residue of the entry length mod 8, an image whose
+// signature happens to end in a zero octet (found by searching image variants), signed and then
+// signed again; (b) signers whose entry length is a multiple of 256 (the entry then starts with a
+// zero octet), found by searching certificate sizes, as first and as later entry.
+func c03EntryBytes(c *hx.Ctx) {
 	c.NoOnly = true
 	vtime.Set(time.Date(2024, 5, 6, 7, 8, 9, 0, time.UTC))
-	base := pegen.Build(peBaseLayouts()[shard*2])
+	mk := func(l int) *x509.Certificate {
+		return keys.Cert(pkix.Name{CommonName: strings.Repeat("z", l)}, big.NewInt(int64(0xA00+l)), &keys.K(1).PublicKey, keys.K(1))
+	}
+	sigOf := func(img []byte, ct *x509.Certificate) []byte {
+		p, err := authenticode.Parse(bytes.NewReader(img))
+		if err != nil {
+			return nil
+		}
+		sig, _ := p.Sign(memoSignerFor(1), ct)
+		return sig
+	}
+	second := c03Signer{keys.C(3), 3, "k3"}
+	// (a)
+	found := 0
+	for l := 1; l <= 8; l++ {
+		ct := mk(l)
+		for v := 0; v < 4096; v++ {
+			img := pegen.Build(pegen.Layout{PE32Plus: true, Lfanew: 0x40, Secs: []pegen.Sec{{RawSize: 8}, {RawSize: 13}}, Trailing: 4})
+			img[len(img)-1], img[len(img)-2] = byte(v), byte(v>>8)
+			sig := sigOf(img, ct)
+			if len(sig) == 0 || sig[len(sig)-1] != 0 {
+				continue
+			}
+			found++
+			c.Count("entry_ending_in_zero_octet_residue_"+strconv.Itoa((8+len(sig))%8), 1)
+			c03CertSweepOn(c, img, 0, []c03Signer{{}, {ct, 1, fmt.Sprintf("k1, CN of %d chars: signature ending in a zero octet", l)}, second}, "entry bytes: earlier signature ends in a zero octet")
+			break
+		}
+	}
+	// (b)
+	base := pegen.Build(peBaseLayouts()[0])
+	n256 := 0
+	for l := 0; l < 400 && n256 < 2; l++ {
+		// name length moves the entry length in steps of 3, serial-number length in steps of 2
+		serial := new(big.Int).Lsh(big.NewInt(0x41), uint(8*(l%4)))
+		ct := keys.Cert(pkix.Name{CommonName: strings.Repeat("y", 1+l/4)}, serial, &keys.K(1).PublicKey, keys.K(1))
+		sig := sigOf(base, ct)
+		if len(sig) == 0 || (8+len(sig))%256 != 0 {
+			continue
+		}
+		n256++
+		it := c03Signer{ct, 1, fmt.Sprintf("k1, certificate sized so that the entry length is %d, a multiple of 256", 8+len(sig))}
+		c03CertSweepOn(c, base, 0, []c03Signer{{}, second, it, it, second}, "entry bytes: entry length a multiple of 256")
+	}
+	c.Count("signatures_ending_in_zero_found", uint64(found))
+	c.Count("entry_lengths_multiple_of_256_found", uint64(n256))
+}
+
+func c03CertSweepOn(c *hx.Ctx, base []byte, shard int, items []c03Signer, label string) {
+	c.NoOnly = true
+	vtime.Set(time.Date(2024, 5, 6, 7, 8, 9, 0, time.UTC))
 	orig := append([]byte{}, base...)
 	digest0, _, _ := refpe.Digest(base)
 	nItems := len(items) - 1
@@ -336,6 +395,10 @@ func c03CertSweep(c *hx.Ctx, shard int, items []c03Signer, label string) {
 func c03Run(c *hx.Ctx, tier, unit string) {
 	c.NoOnly = true
 	vtime.Set(time.Date(2024, 5, 6, 7, 8, 9, 0, time.UTC))
+	if unit == "entry-bytes" {
+		c03EntryBytes(c)
+		return
+	}
 	if unit == "huge" {
 		c03Huge(c, tier)
 		return
